@@ -320,6 +320,7 @@ def run_steps(ctx, binp, ml, profile, seed, only=None, timeout=900):
            "api_calls": 0, "fetches": 0, "foreign": 0, "fetch_classes": {}, "result_classes": {}, "no_verdict": 0,
            "trace": trace, "dropped_reports": 0}
     trigs, reg = {}, {}   # oracle state for line-per-command traces
+    seq_notes = []
     produced, flagged = {}, set()   # per job key: fire times its own trigger returned for it (or a foreign writer queued)
     bad_seq = False
     seq_cmds = []
@@ -380,6 +381,7 @@ def run_steps(ctx, binp, ml, profile, seed, only=None, timeout=900):
             t = c.split()
             if t[0] == "reset":
                 trigs, reg, bad_seq, seq_cmds = {}, {}, False, []
+                seq_notes = []
                 produced, flagged = {}, set()
                 continue
             seq_cmds.append(c)
@@ -387,8 +389,14 @@ def run_steps(ctx, binp, ml, profile, seed, only=None, timeout=900):
                 trigs[int(t[1])] = Trig(" ".join(t[2:]))
                 continue
 
+            if extra.get("reused-detail"):
+                seq_notes.append("%s  <- %s" % (c, extra["reused-detail"]))
+
             def context():
-                return {"sequence": meta, "commands": seq_cmds[-80:], "step": c, "profile": profile, "seed": seed}
+                d = {"sequence": meta, "commands": seq_cmds[-80:], "step": c, "profile": profile, "seed": seed}
+                if seq_notes:
+                    d["notes"] = list(seq_notes)
+                return d
 
             oparts = o.split(" | ")
             oreg = parse_reg(oparts[1]) if len(oparts) == 2 else None
@@ -412,20 +420,23 @@ def run_steps(ctx, binp, ml, profile, seed, only=None, timeout=900):
                             "early_execution": True, "step_facts": extra, "fire_time": prio, "clock_after_the_fetch": after, "early_by_ns": prio - after,
                             "why": ["fetchAndReschedule returned job %s as valid (to be executed) for fire time %d, but the clock read AFTER the "
                                     "fetch had returned was %d: the job is run at least %d ns before its fire time" % (okey, prio, after, prio - after)]})
-                    if prio not in produced.get(okey, ()) and ("invented", okey) not in flagged:
+                    otid = str(reg[okey][2]) if okey in reg else None   # the trigger of the entry as registered before this fetch
+                    own = produced.get((okey, otid), set()) if otid is not None else set().union(*[v for (kk, _), v in produced.items() if kk == okey] or [set()])
+                    if prio not in own and ("invented", okey) not in flagged:
                         flagged.add(("invented", okey))
                         keep(res["failures"], {
                             "case": context(), "observed": o, "specification": "a valid dequeue carries a fire time returned by the job's own trigger",
                             "invented_fire_time": True, "step_facts": extra, "fire_time": prio,
-                            "fire_times_produced_for_the_job": sorted(produced.get(okey, ()))[-8:],
+                            "trigger_of_the_entry": otid, "fire_times_its_trigger_produced_for_the_job": sorted(own)[-8:],
                             "why": ["fetchAndReschedule returned job %s as valid (to be executed) for the instant %d, which none of the NextFireTime "
-                                    "calls made for this job returned (and no foreign writer queued): an execution without a fire time" % (okey, prio)]})
+                                    "calls made for this job on its trigger (%s) returned (and no foreign writer queued with that trigger): an "
+                                    "execution without a fire time of the job's own trigger" % (okey, prio, otid)]})
             if okey is not None:
                 for cc in ocalls:
                     if len(cc) == 3 and re.fullmatch(r"-?\d+", cc[2]):
-                        produced.setdefault(okey, set()).add(int(cc[2]))
-            if t[0] == "X" and len(t) >= 5 and t[1] == "push":
-                produced.setdefault(t[2] + "/" + t[3], set()).add(int(t[4]))
+                        produced.setdefault((okey, cc[0]), set()).add(int(cc[2]))
+            if t[0] == "X" and len(t) >= 8 and t[1] == "push":
+                produced.setdefault((t[2] + "/" + t[3], t[7]), set()).add(int(t[4]))
             # --- model ---
             if mline is not None and o != mline:
                 ml2 = norm_fetch(o, mline) if t[0] in ("F", "FX") else mline
@@ -488,6 +499,12 @@ def run_steps(ctx, binp, ml, profile, seed, only=None, timeout=900):
                     fl["registry_before"] = reg_before
                     fl["why"] = ["the call returned an error (%s) but the registry is not what it was before the call: before %s, after %s" % (
                         o.split(" ")[0], reg_before, reg_str(oreg))] + fl["why"]
+                if t[0] in ("A", "AXP", "AXR") and len(t) > 2 and t[2] == "R" and o.startswith("ok") and want.startswith("ok") and o != want:
+                    fl["why"] = ["ResumeJob returned Ok, but the fire time of the resumed job is not the one its current trigger computes at the "
+                                 "moment of resumption (NextFireTime(clock)): expected trigger calls and registry %s, observed %s" % (want, o)] + fl["why"]
+                if t[0] in ("A", "AXP", "AXR") and len(t) > 6 and t[2] == "S" and t[6] == "1" and ocalls:
+                    fl["why"] = ["ScheduleJob of a job in the PAUSED state (Suspended option) asked the job's trigger for a fire time (%s): a paused "
+                                 "job consumes nothing of its trigger (a run-once / k-shot trigger loses a fire time)" % ",".join(":".join(cc) for cc in ocalls)] + fl["why"]
                 if extra:
                     fl["step_facts"] = extra
                 if t[0] == "FX":
@@ -498,6 +515,7 @@ def run_steps(ctx, binp, ml, profile, seed, only=None, timeout=900):
                     dup = (len(rk) == 3 and rk[2] == "1" and oreg is not None and rk[0] in oreg
                            and oreg[rk[0]][1] == int(rk[1]) and not oreg[rk[0]][0])
                     if dup:
+                        fl["fire_time_returned_for_the_reschedule_dropped"] = [cc[2] for cc in ocalls if len(cc) == 3][-1:] 
                         fl["why"] = ["the reschedule Push failed; the job was returned for execution (valid) and its entry is still queued with "
                                      "the same fire time %s: the next tick executes it again for the same fire time" % rk[1]]
                         fl["duplicated_fire_time"] = True
@@ -543,13 +561,19 @@ def tags_of(f):
             tg.add("C04")      # initial / resumed fire time
         if t[2] == "S" and both_ok and state_differs and not calls_differ:
             tg.add("C03")      # the entry does not carry the fire time its own trigger returned for this call
+        if t[2] == "R" and both_ok and state_differs:
+            tg.add("C03")      # the resumed entry does not carry the fire time its (current) trigger returned at the resumption
+        if t[2] == "S" and len(t) > 6 and t[6] == "1" and calls_differ:
+            tg.add("C08")      # a job added in the paused state: its trigger was asked although nothing may be consumed while paused
         return tg
     if t[0] == "X":
         return {"C09"}         # the harness's own queue calls: the queue does not meet the contract the model assumes
     op, wp = o.split(" | "), w.split(" | ")
     ot, wt = op[0].split(" "), wp[0].split(" ")
     tg = set()
-    if f.get("duplicated_fire_time") or f.get("early_execution") or f.get("invented_fire_time"):
+    if f.get("duplicated_fire_time"):
+        return {"C03", "C04"}   # executed twice (C03); the fire time the trigger returned for the reschedule is dropped, the old one re-queued (C04)
+    if f.get("early_execution") or f.get("invented_fire_time"):
         return {"C03"}
     if o.startswith("BLOCKED"):
         return {"C04"}
